@@ -78,3 +78,37 @@ def flat_ints(x):
             yield from flat_ints(y)
     else:
         yield int(x)
+
+
+def eval_parallel(chk, out, seed, sets, files, nproc=8, timeout=6000):
+    """`ops eval` on the case files, split over parallel harness processes (the cases are independent); the outputs are
+    concatenated into `out`.  Returns the concatenated stderr."""
+    import subprocess
+    lib.build_harness()
+    exe = os.path.join(lib.HARNESS, "target", "release", "ops")
+    # biggest files first, round-robin
+    fs = sorted(files, key=lambda f: -os.path.getsize(f))
+    groups = [fs[i::nproc] for i in range(nproc)]
+    procs = []
+    for i, g in enumerate(groups):
+        if not g:
+            continue
+        po = "%s.part%d" % (out, i)
+        procs.append((subprocess.Popen([exe, "eval", po, str(seed), str(sets)] + g, stdout=subprocess.PIPE, stderr=subprocess.PIPE, text=True), po))
+    errs = []
+    with open(out, "w") as fo:
+        for p, po in procs:
+            try:
+                _, err = p.communicate(timeout=timeout)
+            except subprocess.TimeoutExpired:
+                for q, _ in procs:
+                    q.kill()
+                raise lib.ToolError("harness timeout: ops eval")
+            if p.returncode != 0:
+                raise lib.ToolError("ops eval exited %d: %s" % (p.returncode, err[-2000:]))
+            errs.append(err)
+            with open(po) as fi:
+                for line in fi:
+                    fo.write(line)
+            os.remove(po)
+    return "".join(errs)
